@@ -160,7 +160,7 @@ func TestC11(t *testing.T) {
 	raceBudget := scale(16, 800) / sn
 	extN, raceN := 0, 0
 	rapid.Check(t, func(rt *rapid.T) {
-		p := proggen.Gen(rt, proggen.GenOpts{Focus: "all", MinPkgs: 4, MaxPkgs: 8, TestFiles: false, Aliases: true, Rich: true, Twins: true})
+		p := proggen.Gen(rt, proggen.GenOpts{Focus: "all", MinPkgs: 4, MaxPkgs: 8, TestFiles: false, Aliases: true, Rich: true, Twins: true, Islands: true})
 		// @ignore comments for one shared token in many files: the suppression index of a
 		// package then holds markers of several files, whose position ranges depend on the
 		// order in which the loader happened to parse the files
@@ -259,6 +259,23 @@ func TestC11(t *testing.T) {
 			race := raceN < raceBudget
 			if race {
 				raceN++
+			}
+			if rapid.IntRange(0, 9).Draw(rt, "twinFixture") < 4 {
+				// four more packages without a dependency on the generated ones: two packages that
+				// share their name and declare a same-named interface with different method sets,
+				// and one implementer of each - what the tool says about one must not depend on
+				// whether (or when) the other is analysed in the same process
+				c.Pkgs = append(append([]string{}, c.Pkgs...), "tw1/repo", "tw2/repo", "twsvc1", "twsvc2")
+				ns := map[string]string{}
+				for k, v := range c.Sources {
+					ns[k] = v
+				}
+				ns["tw1/repo/r.go"] = "package repo\n\ntype Repo interface {\n\tGet() int\n}\n\n// @immutable\n// @testonly\ntype Rec struct{ N int }\n"
+				ns["tw2/repo/r.go"] = "package repo\n\ntype Repo interface {\n\tGet() int\n\tPut(int)\n}\n\n// @constructor NewRec\ntype Rec struct{ N int }\n\nfunc NewRec() *Rec { return &Rec{} }\n"
+				ns["twsvc1/s.go"] = "package twsvc1\n\nimport \"vf.test/m/tw1/repo\"\n\n// @implements &repo.Repo\ntype S struct{}\n\nfunc (s *S) Get() int { return 0 }\n\nfunc Use(r *repo.Rec) { r.N = 1 }\n"
+				ns["twsvc2/s.go"] = "package twsvc2\n\nimport \"vf.test/m/tw2/repo\"\n\n// @implements &repo.Repo\ntype S struct{}\n\nfunc (s *S) Get() int { return 0 }\n\nfunc Use() { _ = repo.Rec{} }\n"
+				c.Sources = ns
+				ev.Class(id, "with the same-named-packages fixture")
 			}
 			why, runs := c11Run(c, rt, race)
 			ev.ClassN(id, "binary runs compared", int64(runs))
